@@ -1,5 +1,6 @@
 import AcryoVerif.Lemmas.PyLemmas
 import AcryoVerif.Gen.Align
+import AcryoVerif.Gen.Pose
 
 /-!
 # C05 — Alignment stays inside the search range and never fails on a valid range
@@ -247,5 +248,15 @@ theorem pcc_refine_range (s m : Rat) (u k : Int) (hu : 1 ≤ u) (hs1 : -m ≤ s)
   have hdiv2 : -(s + m) ≤ ((k : Rat) - (c : Rat)) / (u : Rat) :=
     (Py.le_div_iff hupos).mpr (by grind)
   constructor <;> grind
+
+/-! ## units along the loader entry points -/
+
+/-- `align`, `align_multi_templates` and `construct_landscape` normalise `max_shifts` once (nm),
+convert it to pixels exactly once (`/ scale`, `alignMaxShiftsPx`), give the pixel value to the
+alignment model and the nm value to the loader methods that convert themselves. -/
+theorem units_flow : Gen.maxShiftsUnitsFlow = true := by decide
+
+/- The nm ↔ px equivalence `|s| ≤ alignMaxShiftsPx mx σ ↔ |postAlignShiftNm s σ| ≤ mx` is
+`C01.unit_conversion`. -/
 
 end C05
